@@ -355,6 +355,14 @@ func nativeReplay(vd, repo string, hs HarnessSpec, vecPath string) (string, stri
 		}
 		repl[filepath.Join(repo, hs.Pkg, n)] = filepath.Join(hdir, n)
 	}
+	// generated overlay files of other packages (e.g. the dict package's embedded XML accessor)
+	filepath.Walk(filepath.Join(vd, "harness"), func(p string, info os.FileInfo, err error) error {
+		if err == nil && !info.IsDir() && strings.HasPrefix(filepath.Base(p), "zz_verif_gen_") {
+			rel, _ := filepath.Rel(filepath.Join(vd, "harness"), p)
+			repl[filepath.Join(repo, rel)] = p
+		}
+		return nil
+	})
 	entry := fmt.Sprintf("package %s\n\nfunc zzVerifEntry() { %s() }\n", pkgName, hs.Name)
 	ep := filepath.Join(tmp, "zz_verif_entry.go")
 	os.WriteFile(ep, []byte(entry), 0o644)
